@@ -18,7 +18,10 @@ mc/refmodel/qubitref.py.  The BFS itself runs on the reference only (parent proc
 execute the transitions.  Tolerance: 1e-9 without entangling gates; with k heralded CZ/CX the bound
 derived in mc/refmodel/klmref.py from the library's two-decimal KLM angles.  A small exhaustive
 "variants" family adds what the BFS alphabet does not contain (every qubit->clbit map and
-measurement order, entangling gate inside a block, gate on a measured qubit).
+measurement order, entangling gate inside a block, gate on a measured qubit, and a classical bit
+that is written by TWO measurements of different qubits -- in every order, into every bit, with
+conditions after and between the two writes: Qiskit evaluates an if_test on the value the bit holds
+at that moment, i.e. the one written by the latest preceding measurement).
 
 A failure is reported only if the parent circuit of the BFS does not fail in the same way, with a
 signature made of structural attributes: sub (law / crash / translate_crash), input_class
@@ -196,6 +199,21 @@ def variants(ang):
         out.append(("body_two_qubits", {"n": 3, "ops": [["h", 0], ["measure", 0, 0], ["if", 0, v, [["x", 1], ["x", 2]]]]}))
         out.append(("body_two_qubits", {"n": 3, "ops": [["h", 0], ["measure", 0, 0], ["if", 0, v, [["ry", 2, ang[1]], ["h", 1]]]]}))
         out.append(("body_entangling", {"n": 3, "ops": [["h", 0], ["h", 1], ["h", 2], ["measure", 0, 0], ["if", 0, v, [["cz", 1, 2]]], ["h", 2]]}))
+    # the SAME classical bit written by two measurements of different qubits (a later measurement overwrites the bit): 3 qubits
+    # in a product of three different superpositions (P(1) all different, so that no two outcomes are correlated or equally
+    # distributed), every ordered pair (qa, qb) of measured qubits, every classical bit, every condition value, gate on the third
+    prep3 = [["ry", q, ang[1] + 0.5 + 0.45 * q] for q in range(3)]
+    for qa, qb in itertools.permutations(range(3), 2):
+        (t,) = [q for q in range(3) if q not in (qa, qb)]
+        for c in range(3):
+            two = [["measure", qa, c], ["measure", qb, c]]
+            for v in (0, 1):
+                # condition after both writes: must read qb's outcome
+                out.append(("bit_written_twice", {"n": 3, "ops": prep3 + two + [["if", c, v, [["x", t]]]]}))
+                out.append(("bit_written_twice", {"n": 3, "ops": prep3 + two + [["ifelse", c, v, [["x", t]], [["h", t]]]]}))
+                # a condition between the writes (reads qa's outcome) and one after them (reads qb's), non-commuting bodies
+                for w in (0, 1):
+                    out.append(("bit_written_twice", {"n": 3, "ops": prep3 + [two[0], ["if", c, v, [["x", t]]], two[1], ["if", c, w, [["ry", t, ang[2]]]]]}))
     out.append(("gate_after_measure", {"n": 1, "ops": [["h", 0], ["measure", 0, 0], ["x", 0]]}))
     out.append(("gate_after_measure", {"n": 2, "ops": [["h", 0], ["measure", 0, 0], ["cz", 0, 1]]}))
     return out
@@ -210,18 +228,24 @@ def cond_features(circ):
 
     The simulator hands conditions the tuple of all outcomes in *measurement order*, two entries per
     measured qubit.  'bit_not_at_position': some condition reads a clbit c whose writing measurement is not
-    the c-th measurement of the program; 'else_body', 'two_qubit_body', 'entangling_body' as named."""
-    written = {}
+    the c-th measurement of the program; 'bit_written_twice': some condition reads a clbit that two or more
+    preceding measurements have written (the latest one counts; 'bit_not_at_position' is then not reported,
+    "the" position of the bit being the very thing in question); 'else_body', 'two_qubit_body',
+    'entangling_body' as named."""
+    written = {}  # clbit -> positions (in measurement order) of the measurements that wrote it so far
     count = 0
     feats = set()
     any_cond = False
     for op in circ["ops"]:
         if op[0] == "measure":
-            written[op[2]] = count
+            written.setdefault(op[2], []).append(count)
             count += 1
         elif op[0] in ("if", "ifelse"):
             any_cond = True
-            if written.get(op[1]) != op[1]:
+            pos = written.get(op[1], [])
+            if len(pos) > 1:
+                feats.add("bit_written_twice")
+            elif pos != [op[1]]:
                 feats.add("bit_not_at_position")
             bodies = [op[3]] + ([op[4]] if op[0] == "ifelse" else [])
             if op[0] == "ifelse" and op[4]:
@@ -231,6 +255,8 @@ def cond_features(circ):
                     feats.add("entangling_body")
                 elif len({g[1] for g in body}) > 1:
                     feats.add("two_qubit_body")
+    if "bit_written_twice" in feats:
+        feats.discard("bit_not_at_position")
     return any_cond, sorted(feats)
 
 
@@ -553,6 +579,7 @@ def work(ctx, item):
             measured = [op[1] for op in circ["ops"] if op[0] == "measure"]
             final = [q for q in range(circ["n"]) if q not in measured]
             ctx.count("variant_circuits")
+            ctx.count("variant_circuits_" + vkind)
             ctx.note_distinct("variant:" + repr(circ))
             for cutoff in cutoffs_for(circ):
                 if vkind == "gate_after_measure":
@@ -666,6 +693,10 @@ def run(ctx, builddir):
                "'modes ... are not active', counted as unsupported cell in the variants)")
     ctx.assume("BFS measure actions write clbit q from qubit q (the convention of the test-suite), in any order of the qubits; other "
                "qubit->clbit maps are in the variants family")
+    ctx.assume("a classical bit may be written by several measurements (variants family: two measurements of different qubits into one bit, "
+               "3 qubits in a product of three different superpositions): an if_test reads the value the bit holds when it is reached "
+               "(Qiskit: a later measurement overwrites the bit; qubitref self-tests this against qiskit's BasicSimulator); the reported "
+               "classical bits are the final values")
     ctx.assume("conditioned actions: if_test with one gate, if_test/else with one gate each, if_test with one gate on each of two "
                "qubits; cz/cx inside a block is refused by the translator (ValueError 'Unsupported instruction', unsupported cell)")
 
@@ -689,7 +720,9 @@ def run(ctx, builddir):
         if chunk:
             items.append((acc, {"kind": "bfs", "space": space[0], "n": space[1], "transitions": chunk, "klm": klm_small, "sample": first}))
     if not only or "variants" in only.split(","):
-        items.append((5.0, {"kind": "variants", "circuits": variants(ang), "klm": klm_small}))
+        vs = variants(ang)
+        for k in range(0, len(vs), 60):  # heavy body_entangling / gate_after_measure circuits are at the end
+            items.append((5.0, {"kind": "variants", "circuits": vs[k:k + 60], "klm": klm_small}))
     items = [it for _, it in sorted(items, key=lambda t: -t[0])]
     if only and "@" in only:  # development aid: --only name@k/m runs the k-th of m interleaved partitions of the work items
         k, m = (int(x) for x in only.split("@")[1].split("/"))
